@@ -5,7 +5,7 @@
    cp_to_tensor / khatri_rao / cp_lstsq_grad, whose statement for the code as it is now is C18_mask_multiplier_after_cast_any_mask).  Programs extracted from the Python source: C18_prog2_precision_preserved
    (precision class) and C18_all_exact2_sound (exactly the data's dtype: complex stays complex). *)
 From Coq Require Import List Bool Arith String.
-From TLV Require Import Model.Dtype Proofs.DtypeProofs.
+From TLV Require Import Model.Dtype Model.DtypeHist Proofs.DtypeProofs Proofs.DtypeHistProofs.
 Import ListNotations.
 
 Theorem C18_promote_comm : forall a b, promote a b = promote b a.
@@ -113,6 +113,57 @@ Example C18_exact2_nonvacuous :
   ext_exact_any p1 [0] = true /\ ext_exact_any p1 [0; 1] = false /\ ext_ok_any p1 = true /\
   nth_error (p_outs p1) 0 = Some ("*", Var 1) /\ In C64 ctxs /\ In I64 mask_dts.
 Proof. repeat split; try (vm_compute; reflexivity); simpl; tauto. Qed.
+
+(* ---- HISTORY INDEPENDENCE (call sequences; Model/DtypeHist.v).  A process makes a sequence of calls; a set G of PERSISTENT variables (module-level
+   dict / list, function attribute, functools cache, cell of a long-lived closure, mutable default argument, class-level container) carries its
+   value from the end of one call to the start of the next, every other variable starts as in a fresh process.  call_outs G h c = the output
+   dtypes of the call c made after the history h; isolated_outs c = what the same call returns as the first call of a fresh process.
+   Whatever the earlier calls were - other programs, other dtypes, whatever they wrote into the persistent variables - a call of a program that
+   reads no persistent variable before overwriting it (hist_free: the value side of a cast into a context does not count as a read) returns
+   exactly its isolated dtypes: the dtype of the n-th call's outputs depends only on that call's inputs *)
+Theorem C18_history_independent : forall G h c, hist_free G (k_prog c) = true -> call_outs G h c = isolated_outs c.
+Proof. exact history_independent. Qed.
+Print Assumptions C18_history_independent.
+(* programs WITHOUT persistent state - every program of the dtype language as the skeletons and the source translator use it - pass the check
+   vacuously: every skeleton, every extracted program is history independent *)
+Theorem C18_stateless_history_independent : forall h c, call_outs [] h c = isolated_outs c.
+Proof. exact stateless_history_independent. Qed.
+Print Assumptions C18_stateless_history_independent.
+Corollary C18_skeletons_history_independent : forall h cf t m n,
+  call_outs [] h (mkcall (mkenv t m) (skeleton cf) n) = out_dtypes (mkenv t m) (skeleton cf) n.
+Proof. intros. apply stateless_history_independent. Qed.
+Print Assumptions C18_skeletons_history_independent.
+(* ... so the per-call guarantees hold for every call of every session: precision class and exact dtype of the extracted programs *)
+Theorem C18_session_precision_preserved : forall G h c, hist_free G (k_prog c) = true -> In (tau (k_env c)) ctxs ->
+  prog_ok2 (k_env c) (k_prog c) = true -> forall s d, In (s, d) (call_outs G h c) -> strongP (tau (k_env c)) d = true.
+Proof. exact session_precision_preserved. Qed.
+Print Assumptions C18_session_precision_preserved.
+Theorem C18_session_exact_preserved : forall G h c want, hist_free G (k_prog c) = true -> In (tau (k_env c)) ctxs ->
+  all_exact2 (k_env c) (k_prog c) want = true -> forall k o, In k want -> nth_error (p_outs (k_prog c)) k = Some o ->
+  nth_error (call_outs G h c) k = Some (fst o, tau (k_env c)).
+Proof. exact session_exact_preserved. Qed.
+Print Assumptions C18_session_exact_preserved.
+(* REFUTED for a program WITH a dtype-oblivious cache (the class of a seeded defect: smoothness_prox keeping its tridiagonal system matrix in a
+   module-level dict keyed by (backend, rows, regulariser) - NOT the code, which rebuilds the matrix in the context of the data on every call,
+   smooth_prog).  ONE float64 call anywhere in the history of the process is enough: every later float32 call returns float64, although the same
+   call in a fresh process returns float32; induction over the history *)
+Theorem C18_dtype_oblivious_cache_refuted : forall ts, (forall t, In t ts -> t = F32 \/ t = F64) -> In F64 ts ->
+  call_outs [vK] (map (smooth_call cached_smooth_prog) ts) (smooth_call cached_smooth_prog F32) = [("out0", F64)] /\
+  isolated_outs (smooth_call cached_smooth_prog F32) = [("out0", F32)].
+Proof. exact cached_smooth_widens. Qed.
+Print Assumptions C18_dtype_oblivious_cache_refuted.
+(* with the dtype in the key the cached value reaches the result only through a cast into the context of the current data: harmless in every session *)
+Theorem C18_dtype_keyed_cache_history_independent : forall h t n, call_outs [vK] h (mkcall (mkenv t t) keyed_smooth_prog n) = [("out0", t)].
+Proof. exact keyed_smooth_history_independent. Qed.
+Print Assumptions C18_dtype_keyed_cache_history_independent.
+Example C18_history_nonvacuous :
+  call_outs [vK] [smooth_call cached_smooth_prog F64] (smooth_call cached_smooth_prog F32) = [("out0", F64)] /\
+  isolated_outs (smooth_call cached_smooth_prog F32) = [("out0", F32)] /\
+  call_outs [vK] [smooth_call cached_smooth_prog C128] (smooth_call cached_smooth_prog C64) = [("out0", C128)] /\
+  call_outs [vK] [smooth_call cached_smooth_prog F32] (smooth_call cached_smooth_prog F64) = [("out0", F64)] /\
+  hist_free [vK] cached_smooth_prog = false /\ hist_free [] cached_smooth_prog = true /\
+  hist_free [vK] smooth_prog = true /\ hist_free [vK] keyed_smooth_prog = true.
+Proof. exact cached_smooth_refuted. Qed.
 
 (* the option space: a configuration is valid iff its family is neither the documented float64 one (leverage scores) nor FMaskMul,
    the plain mask multipliers as they were BEFORE the repair ba7a532 (kept as a model variant; the code now is FMaskMulCast, listed); the
